@@ -53,6 +53,11 @@ def cases(tier, seed):
                 for dup in ("same", "opposite", "neighbour"):
                     for order in (0, 1):
                         out.append({"frame": fr, "kind": kind, "slot": slot, "usage": "given", "dup": dup, "order": order})
+        # an edge that one operation declares with an arc that is omitted (collinear) and its neighbour with a spline:
+        # the spline is what is written, and what both blocks measure
+        for slot in (0, 1, 5, 7, 8, 11):
+            for order in (0, 1):
+                out.append({"frame": fr, "kind": "collinear_arc", "slot": slot, "usage": "given", "dup": "spline_by_neighbour", "order": order})
         # the same Face object used as the top of one operation and the bottom of the next (stacking),
         # and life-cycle histories after the first write: write again / clear+write / backport+write
         for kind in ("spline", "polyline", "angle+", "angle-", "angle--", "arc", "oncurve"):
@@ -309,6 +314,10 @@ def build(case):
         if case["dup"] == "same":
             quad = [A, B, B + wdir, A + wdir]
             make2, _ = user_curve(kind, A, B, case["frame"])
+        elif case["dup"] == "spline_by_neighbour":
+            quad = [B, A, A + wdir, B + wdir]
+            make2, _ = user_curve("spline", A, B, case["frame"], flip=True)
+            _, ref = user_curve("spline", A, B, case["frame"])
         elif case["dup"] == "neighbour":
             # a second operation that shares the edge without defining it (the usual way: one definition per edge)
             quad = [B, A, A + wdir, B + wdir]
@@ -342,6 +351,8 @@ def run_case(case):
         violations.append({"clause": clause, "coords": coords, "detail": detail})
 
     mesh, ops, P, ref, (a, b) = build(case)
+    if case["dup"] == "spline_by_neighbour":
+        kind = "spline"
     path = os.path.join(runner.scratch_dir(), f"c07_{os.getpid()}")
     try:
         mesh.write(path)
